@@ -28,10 +28,10 @@ func init() {
 			"call graph: VTA refined from CHA over go/ssa (sound for the program as loaded, over-approximate: it can only add delegation edges to the forbidden set, never hide one)",
 		},
 		Rules: []RuleDef{
-			{Name: "C12-OWN", Floor: 3, Doc: "TempVM.Add* write only the TempVM's own maps", Run: c12Run},
+			{Name: "C12-OWN", Floor: 1, Doc: "TempVM.Add* write only the TempVM's own maps", Run: c12Run},
 			{Name: "C12-DELEG", Floor: 10, Doc: "no TempVM method delegates to a base-VM method from which the base VM's Add* is reachable (except listed process-wide registrations)", Run: nop},
 			{Name: "C12-PARSER", Floor: 1, Doc: "TempVM parses with the parser cloned and bound to it by PrepareParse; the base parser is only cloned", Run: nop},
-			{Name: "C12-READ", Floor: 5, Doc: "every TempVM lookup falls back to (or starts with) the base VM", Run: nop},
+			{Name: "C12-READ", Floor: 2, Doc: "every TempVM lookup falls back to (or starts with) the base VM", Run: nop},
 			{Name: "C12-ESC", Floor: 1, Doc: "the added-class/interface/function tables do not escape the TempVM", Run: nop},
 		},
 	})
@@ -110,12 +110,34 @@ func c12Run(r *Run) {
 		}
 		key := funcKey(pkg, fd) + "#own-table"
 		writesOwn, bad := false, ""
+		// local aliases of the own tables (tbl := t.addedFuncs)
+		aliasOf := map[types.Object]*types.Var{}
+		ast.Inspect(fd.Body, func(n ast.Node) bool {
+			if as, ok := n.(*ast.AssignStmt); ok && len(as.Lhs) == len(as.Rhs) {
+				for i := range as.Lhs {
+					if f := fieldOf(as.Rhs[i]); f != nil && ownMaps[f] {
+						if id, ok := as.Lhs[i].(*ast.Ident); ok {
+							if o := info.Defs[id]; o != nil {
+								aliasOf[o] = f
+							}
+						}
+					}
+				}
+			}
+			return true
+		})
 		ast.Inspect(fd.Body, func(n ast.Node) bool {
 			switch x := n.(type) {
 			case *ast.AssignStmt:
 				for _, l := range x.Lhs {
 					if ix, ok := ast.Unparen(l).(*ast.IndexExpr); ok {
-						if f := fieldOf(ix.X); f != nil {
+						f := fieldOf(ix.X)
+						if f == nil {
+							if id, ok := ast.Unparen(ix.X).(*ast.Ident); ok {
+								f = aliasOf[info.Uses[id]]
+							}
+						}
+						if f != nil {
 							if ownMaps[f] {
 								writesOwn = true
 							} else {
@@ -443,7 +465,7 @@ func c12Run(r *Run) {
 					return true
 				}
 				if p != pkg || recvTypeName(fd) != "TempVM" {
-					if !strings.HasPrefix(fd.Name.Name, "NewTempVM") {
+					if !(p == pkg && buildsTempVM(pinfo, fd, tvm)) {
 						escaped = true
 						r.bad(funcKey(p, fd)+"#uses:"+v.Name(), se.Pos(), "the TempVM's private table "+v.Name()+" is accessed outside TempVM's methods")
 					}
@@ -479,4 +501,18 @@ func c12Run(r *Run) {
 	if !escaped {
 		r.ok("TempVM#tables-private", tvm.Obj().Pos(), fmt.Sprintf("%d private tables are touched only by TempVM's own methods and never returned or stored elsewhere", len(ownMaps)))
 	}
+}
+
+// buildsTempVM: fd is a constructor — it contains a composite literal of the TempVM type and returns it.
+func buildsTempVM(info *types.Info, fd *ast.FuncDecl, tvm *types.Named) bool {
+	found := false
+	ast.Inspect(fd.Body, func(n ast.Node) bool {
+		if cl, ok := n.(*ast.CompositeLit); ok {
+			if namedOf(info.TypeOf(cl)) == tvm {
+				found = true
+			}
+		}
+		return true
+	})
+	return found
 }
